@@ -23,6 +23,20 @@ CHECKS = {
             "concrete leaking history. The unit test samples one history; this quantifies over all of them.",
             TRUST + "; `with` guarantees __exit__; single-threaded histories.",
             "DESIGN.md section 3, C17"),
+    "C14": (True,
+            "constructor-record dataflow through the MRO (table agreement), factory/dtype lint, guard-dominance and "
+            "optional-dereference rules over the ast",
+            "Decides structural clauses of C14 for every operator class, every dtype and every default-dtype "
+            "configuration at once: (A) the rebuild cls(*_args, **_kwargs) used by clone/detach/to/type/cpu/"
+            "representation_tree binds every constructor parameter to a value derived from that parameter (flags such as "
+            "upper, dim, batch_repeat, masks, interpolation indices survive); (F) every floating tensor factory and "
+            "every constructor call of a dtype-taking class carries a dtype derived from an operand, never torch's "
+            "default; (V) dtype conversions of recorded arguments sit behind a floating-point test so index / mask "
+            "tensors are never cast; (N) optional device/dtype are None-tested; (P,P2,G) dtype/device property "
+            "overrides, to()/type() overrides of dtype-keyword classes, requires_grad only on floating tensors. Each is "
+            "a necessary condition of the property. NOT decided: equality of dense values after a conversion, storage "
+            "disjointness of clones (covered by C13's engine when built).",
+            TRUST, "DESIGN.md section 3, C14"),
 }
 
 NOT_APPLICABLE = {
